@@ -17,11 +17,23 @@ use serde_json::Value;
 const SLOTS: usize = 64;
 static INFLIGHT_RUN: [AtomicU64; SLOTS] = [const { AtomicU64::new(u64::MAX) }; SLOTS];
 static INFLIGHT_ENGINE: [AtomicU64; SLOTS] = [const { AtomicU64::new(0) }; SLOTS];
+static INFLIGHT_SINCE: [AtomicU64; SLOTS] = [const { AtomicU64::new(0) }; SLOTS];
 static FD: AtomicI32 = AtomicI32::new(-1);
+static START: std::sync::OnceLock<std::time::Instant> = std::sync::OnceLock::new();
+
+fn now_ms() -> u64 {
+    START.get_or_init(std::time::Instant::now).elapsed().as_millis() as u64
+}
+
+/// Wall-clock seconds after which a single run counts as hung (runs take milliseconds).
+pub fn hang_s() -> u64 {
+    std::env::var("VERIF_HANG_S").ok().and_then(|s| s.parse().ok()).unwrap_or(120)
+}
 
 pub fn enter(slot: usize, engine_index: u64, run_index: u64) {
     if slot < SLOTS {
         INFLIGHT_ENGINE[slot].store(engine_index, Ordering::SeqCst);
+        INFLIGHT_SINCE[slot].store(now_ms(), Ordering::SeqCst);
         INFLIGHT_RUN[slot].store(run_index, Ordering::SeqCst);
     }
 }
@@ -50,13 +62,14 @@ fn put(buf: &mut [u8], at: &mut usize, mut n: u64) {
     }
 }
 
-extern "C" fn on_abort(_sig: i32) {
-    // async-signal-safe only: atomics, write(2), _exit(2)
+fn dump(only_older_than_ms: Option<u64>) {
+    // async-signal-safe only: atomics, write(2)
     let fd = FD.load(Ordering::SeqCst);
     if fd >= 0 {
         for slot in 0..SLOTS {
             let run = INFLIGHT_RUN[slot].load(Ordering::SeqCst);
-            if run != u64::MAX {
+            let old_enough = only_older_than_ms.map(|t| INFLIGHT_SINCE[slot].load(Ordering::SeqCst) <= t).unwrap_or(true);
+            if run != u64::MAX && old_enough {
                 let mut buf = [0u8; 64];
                 let mut at = 0;
                 put(&mut buf, &mut at, INFLIGHT_ENGINE[slot].load(Ordering::SeqCst));
@@ -71,8 +84,15 @@ extern "C" fn on_abort(_sig: i32) {
             }
         }
     }
+}
+
+extern "C" fn on_abort(_sig: i32) {
+    dump(None);
     unsafe { libc::_exit(134) }
 }
+
+/// Exit status of a search process whose watchdog found a run that does not return.
+pub const HANG_STATUS: i32 = 142;
 
 /// Opens the breadcrumb file and installs the handler (search processes only).
 pub fn install(root: &str) {
@@ -85,6 +105,21 @@ pub fn install(root: &str) {
         unsafe {
             libc::signal(libc::SIGABRT, on_abort as usize);
         }
+        // watchdog: a run that does not return (a loop that lost its await, a wait that is never
+        // woken) can not be interrupted from inside; name it and end the process
+        let limit_ms = hang_s() * 1000;
+        std::thread::spawn(move || loop {
+            std::thread::sleep(std::time::Duration::from_secs(1));
+            let now = now_ms();
+            if now < limit_ms {
+                continue;
+            }
+            let hung = (0..SLOTS).any(|s| INFLIGHT_RUN[s].load(Ordering::SeqCst) != u64::MAX && INFLIGHT_SINCE[s].load(Ordering::SeqCst) <= now - limit_ms);
+            if hung {
+                dump(Some(now - limit_ms));
+                unsafe { libc::_exit(HANG_STATUS) }
+            }
+        });
     }
 }
 
